@@ -460,7 +460,17 @@ fn s_wrapped(t: &mut Tape, sc: &mut Sc) -> Verdict {
     let is_rg = t.chance(1, 3);
     let status = *t.pick(&[0i64, 0, 1, 2, 3, 42, 127, 128, 129, 255]);
     let with_stderr = t.chance(1, 3);
-    let content = if is_rg { rg_json(&case) } else { input.clone() };
+    let mut content = if is_rg { rg_json(&case) } else { input.clone() };
+    // now and then the command has far more to say than a pipe holds (64 KiB): when delta's
+    // consumer goes away early, the command is still blocked writing, and delta must not wait
+    // for it with the read end of that pipe open
+    let big = t.chance(1, 4);
+    if big && !content.is_empty() {
+        let unit = content.clone();
+        while content.len() < 400_000 {
+            content.extend_from_slice(&unit);
+        }
+    }
     let content_file = sc.w.dir.join("tool-stdout.bin");
     std::fs::write(&content_file, &content).expect("write content");
     let script = sc.w.dir.join("script.json");
@@ -518,6 +528,7 @@ fn s_wrapped(t: &mut Tape, sc: &mut Sc) -> Verdict {
         }
     }
     sc.ctx.class(&format!("wrapped:{}:status{}", tool[0], if status == 0 { "0" } else { "nonzero" }));
+    sc.ctx.class_if(big, "wrapped:command-output-larger-than-a-pipe");
     Verdict::Pass
 }
 
